@@ -128,7 +128,7 @@ Lemma Neven : N mod 2 = 0.
 Proof. apply (N_even D d0 merge t d); assumption. Qed.
 
 Lemma Nsmall : 2 * N <= usz.
-Proof. apply (N_small D d0 merge t d); assumption. Qed.
+Proof. unfold N. eapply N_small; eassumption. Qed.
 
 Lemma tn_len : zlen tn = N.
 Proof. exact (wf_nodes _ _ _ _ _ WF). Qed.
@@ -232,6 +232,128 @@ Proof.
       replace (Z.of_nat k + 2) with (Z.of_nat k + 1 + 1) by lia. apply Hr. assumption.
     + etransitivity; [|exact HN]. apply pow2_le_mono. lia.
     + apply Forall2_len in F. unfold zlen in *. lia.
+Qed.
+
+(* ---------------------------------------------------------------- get_root side: one level *)
+Definition vsound (v : bmap D) : Prop := forall k x, bt_get k v = Some x -> 1 <= k /\ x = hval t k.
+
+Lemma vsound_insert v k : vsound v -> 1 <= k -> vsound (bt_insert k (hval t k) v).
+Proof.
+  intros Hv Hk k2 x. rewrite bt_get_insert. destruct (Z.eqb_spec k2 k); [intros [= <-]; subst; auto|apply Hv].
+Qed.
+
+Lemma gstep_ok a s v ptm :
+  2 <= a < N -> vsound v -> bt_get a v <> None -> s = hval t (Z.lxor a 1) ->
+  exists ptm1, gstep a s v ptm = Ok (bt_insert (a / 2) (hval t (a / 2)) v, ptm1, a / 2).
+Proof.
+  intros Ha Hv Hg ->. unfold Merkle.gstep. destruct (bt_get a v) as [node|] eqn:E; [|congruence].
+  apply Hv in E. destruct E as [_ ->]. rewrite shiftr1.
+  pose proof Npos.
+  assert (C := climb_step D d0 merge t d WF Hd a ltac:(lia)).
+  destruct (Z.land a 1 =? 0); cbn [negb]; rewrite C; eauto.
+Qed.
+
+Lemma scan_complete : forall n I i nodes nodes' next NF v ptm, (length I <= n)%nat ->
+  pb_scan tn I i nodes = Ok (nodes', next) ->
+  Forall2 prefix nodes' NF -> 0 <= i ->
+  (forall a, In a I -> 2 <= a < N) ->
+  vsound v -> (forall a, In a I -> bt_get a v <> None) ->
+  exists v' ptm', gscan NF I i v (map zlen nodes) ptm = Ok (v', map zlen nodes', ptm', next) /\
+    vsound v' /\ (forall k, bt_get k v <> None -> bt_get k v' <> None) /\
+    (forall b, In b next -> bt_get b v' <> None).
+Proof.
+  induction n as [|n IH]; intros I i nodes nodes' next NF v ptm Hn E HF Hi Hr Hv Hk.
+  - destruct I; [|simpl in Hn; lia]. cbn in E. injection E as <- <-. cbn. exists v, ptm. split; [reflexivity|]. split; [assumption|]. split; [auto|intros ? []].
+  - destruct I as [|a rest].
+    { cbn in E. injection E as <- <-. cbn. exists v, ptm. split; [reflexivity|]. split; [assumption|]. split; [auto|intros ? []]. }
+    assert (Ha : 2 <= a < N) by (apply Hr; left; reflexivity).
+    rewrite pb_scan_unfold in E. rewrite gscan_unfold. destruct (merged a rest) eqn:Em.
+    + destruct (merged_inv _ _ Em) as (rest' & ->). cbn [tl] in *.
+      apply bind_Ok in E. destruct E as ([nodesF next'] & E1 & E2). injection E2 as <- <-.
+      assert (Hs : In (Z.lxor a 1) (a :: Z.lxor a 1 :: rest')) by (right; left; reflexivity).
+      destruct (bt_get (Z.lxor a 1) v) as [s|] eqn:Es; [|apply Hk in Hs; congruence].
+      apply Hv in Es. destruct Es as [_ ->].
+      destruct (gstep_ok a (hval t (Z.lxor a 1)) v ptm Ha Hv (Hk a (or_introl eq_refl)) eq_refl) as (ptm1 & Eg).
+      rewrite Eg. cbn [bind].
+      assert (Hv1 : vsound (bt_insert (a / 2) (hval t (a / 2)) v)).
+      { apply vsound_insert; [assumption|]. pose proof (Z.div_mod a 2 ltac:(lia)). pose proof (Z.mod_pos_bound a 2 ltac:(lia)). lia. }
+      destruct (IH rest' (i + 2) nodes nodesF next' NF _ ptm1 ltac:(simpl in Hn; lia) E1 HF ltac:(lia)) as (v' & ptm' & Eg2 & Hv' & Hk' & Hn').
+      { intros a' Ha'. apply Hr. right. right. assumption. }
+      { exact Hv1. }
+      { intros a' Ha'. rewrite bt_get_insert. destruct (a' =? a / 2); [discriminate|]. apply Hk. right. right. assumption. }
+      rewrite Eg2. cbn [bind]. exists v', ptm'. split.
+      { rewrite shiftr1, lxor1_div2 by lia. reflexivity. }
+      split; [assumption|]. split.
+      { intros k Hk0. apply Hk'. rewrite bt_get_insert. destruct (k =? a / 2); [discriminate|assumption]. }
+      intros b [<-|Hb]; [|apply Hn'; assumption].
+      apply Hk'. rewrite shiftr1, lxor1_div2 by lia. rewrite bt_get_insert_same. discriminate.
+    + apply bind_Ok in E. destruct E as (x & Ex & E). apply bind_Ok in E. destruct E as (nodes1 & Ep & E).
+      apply bind_Ok in E. destruct E as ([nodesF next'] & E1 & E2). injection E2 as <- <-.
+      rewrite idx_tn in Ex by (apply sib_range; assumption). injection Ex as <-.
+      destruct (push_at_inv _ _ _ _ Ep) as (nd & Hi2 & End & Eu & L1 & F1).
+      pose proof (pb_scan_inv (length rest) rest (i + 1) nodes1 nodesF next' (le_n _) E1) as (F2 & _).
+      (* the node read by get_root *)
+      assert (End1 : nth_error nodes1 (Z.to_nat i) = Some (nd ++ [hval t (Z.lxor a 1)])).
+      { apply upd_inv in Eu. destruct Eu as (_ & _ & Nn). rewrite Nn, Nat.eqb_refl. reflexivity. }
+      destruct (Forall2_nth _ _ _ _ _ F2 End1) as (ndF & EndF & P1).
+      destruct (Forall2_nth _ _ _ _ _ HF EndF) as (ndN & EndN & P2).
+      pose proof (prefix_snoc_nth _ _ _ (prefix_trans _ _ _ P1 P2)) as [Ex Hlen].
+      unfold Merkle.gsib.
+      rewrite (idx_map zlen nodes i nd) by (apply idx_nth_error; [lia|assumption]). cbn [bind].
+      rewrite (idx_nth_error NF i ndN) by (lia || assumption). cbn [bind].
+      destruct (Z.leb_spec (zlen ndN) (zlen nd)); [unfold zlen in *; lia|].
+      rewrite (idx_nth_error ndN (zlen nd) (hval t (Z.lxor a 1))) by (try apply zlen_nonneg; unfold zlen; rewrite Nat2Z.id; assumption).
+      cbn [bind].
+      assert (Eu2 : upd (map zlen nodes) i (zlen nd + 1) = Ok (map zlen nodes1)).
+      { replace (zlen nd + 1) with (zlen (nd ++ [hval t (Z.lxor a 1)])) by (rewrite zlen_app; reflexivity).
+        apply upd_map. assumption. }
+      rewrite Eu2. cbn [bind].
+      destruct (gstep_ok a (hval t (Z.lxor a 1)) v ptm Ha Hv (Hk a (or_introl eq_refl)) eq_refl) as (ptm1 & Eg).
+      rewrite Eg. cbn [bind].
+      assert (Hv1 : vsound (bt_insert (a / 2) (hval t (a / 2)) v)).
+      { apply vsound_insert; [assumption|]. pose proof (Z.div_mod a 2 ltac:(lia)). pose proof (Z.mod_pos_bound a 2 ltac:(lia)). lia. }
+      destruct (IH rest (i + 1) nodes1 nodesF next' NF _ ptm1 ltac:(simpl in Hn; lia) E1 HF ltac:(lia)) as (v' & ptm' & Eg2 & Hv' & Hk' & Hn').
+      { intros a' Ha'. apply Hr. right. assumption. }
+      { exact Hv1. }
+      { intros a' Ha'. rewrite bt_get_insert. destruct (a' =? a / 2); [discriminate|]. apply Hk. right. assumption. }
+      rewrite Eg2. cbn [bind]. exists v', ptm'. split.
+      { rewrite shiftr1, lxor1_div2 by lia. reflexivity. }
+      split; [assumption|]. split.
+      { intros k Hk0. apply Hk'. rewrite bt_get_insert. destruct (k =? a / 2); [discriminate|assumption]. }
+      intros b [<-|Hb]; [|apply Hn'; assumption].
+      apply Hk'. rewrite shiftr1, lxor1_div2 by lia. rewrite bt_get_insert_same. discriminate.
+Qed.
+
+(* ---------------------------------------------------------------- all levels *)
+Lemma levels_complete : forall (k : nat) I nodes NF v ptm,
+  pb_levels k tn I nodes = Ok NF ->
+  (forall a, In a I -> 2 ^ Z.of_nat k <= a < 2 ^ (Z.of_nat k + 1)) -> 2 ^ (Z.of_nat k + 1) <= N ->
+  vsound v -> (forall a, In a I -> bt_get a v <> None) ->
+  exists v' ptm', glevels k NF I v (map zlen nodes) ptm = Ok (v', ptm') /\ vsound v' /\
+                  (I <> [] -> bt_get 1 v' <> None).
+Proof.
+  induction k as [|k IH]; intros I nodes NF v ptm E Hr HN Hv Hk.
+  - cbn in E. injection E as <-. cbn. exists v, ptm. split; [reflexivity|]. split; [assumption|].
+    intros Hne. destruct I as [|a r]; [congruence|]. specialize (Hr a (or_introl eq_refl)). cbn in Hr.
+    assert (a = 1) by lia. subst a. apply Hk. left. reflexivity.
+  - cbn [Merkle.pb_levels] in E. cbn [Merkle.glevels]. rewrite Nat2Z.inj_succ in *. unfold Z.succ in *.
+    assert (0 < 2 ^ Z.of_nat k) by (apply pow2_pos; lia).
+    assert (H2 : 2 ^ (Z.of_nat k + 1) = 2 * 2 ^ Z.of_nat k) by (rewrite Z.pow_add_r by lia; change (2 ^ 1) with 2; lia).
+    apply bind_Ok in E. destruct E as ([nodes1 next] & E1 & E2).
+    pose proof (pb_levels_mono _ _ _ _ E2) as F2.
+    pose proof (pb_scan_inv (length I) I 0 nodes nodes1 next (le_n _) E1) as (_ & _ & P & Pne).
+    destruct (scan_complete (length I) I 0 nodes nodes1 next NF v ptm (le_n _) E1 F2 ltac:(lia)) as (v1 & ptm1 & Eg & Hv1 & Hk1 & Hn1).
+    { intros a Ha. apply Hr in Ha. lia. }
+    { assumption. }
+    { assumption. }
+    rewrite Eg. cbn [bind].
+    destruct (IH next nodes1 NF v1 ptm1 E2) as (v' & ptm' & Eg2 & Hv' & H1).
+    + intros b Hb. apply P in Hb. destruct Hb as (a & Ha & ->). apply parent_range.
+      replace (Z.of_nat k + 2) with (Z.of_nat k + 1 + 1) by lia. apply Hr. assumption.
+    + etransitivity; [|exact HN]. apply pow2_le_mono. lia.
+    + assumption.
+    + assumption.
+    + exists v', ptm'. split; [assumption|]. split; [assumption|]. intros Hne. apply H1. apply Pne. assumption.
 Qed.
 
 End Batch.
